@@ -193,7 +193,10 @@ func wsPart(w *vc.Writer, r *vc.Rand) {
 			if outcome == 0 {
 				conn.Script = append(conn.Script, vfake.RespItem{Kind: vfake.KEOF, NeedReqs: expectReqs})
 			} else {
-				conn.Script = append(conn.Script, vfake.RespItem{Kind: vfake.KErr, Status: status.New(codes.Code(outcome), "target failed"), NeedReqs: expectReqs})
+				// the reason of a close frame is limited to 123 bytes: long messages (also multi-byte ones cut in the middle) must
+				// still end the socket with a well-formed close frame that carries the code
+				emsg := rr.Pick([]string{"target failed", "target failed", strings.Repeat("long reason ", 20), strings.Repeat("é中", 70), strings.Repeat("x", 123), strings.Repeat("y", 124), ""})
+				conn.Script = append(conn.Script, vfake.RespItem{Kind: vfake.KErr, Status: status.New(codes.Code(outcome), emsg), NeedReqs: expectReqs})
 			}
 		}
 		// the target answers only once the client has sent everything and the bridge had time to read it: closing a socket
